@@ -102,6 +102,17 @@ CLAIMED = {
         "artefact (CSV/shell) checks driven by bounds read from the ast + abstract evaluation of the averaging helper",
         "other",
     ),
+    "C14": (
+        "Decides the shared-state discipline the property's mechanism relies on (necessary conditions): the only writer of "
+        "the process-wide conversion settings is set_nutrition_requirements, which is straight-line in its parameters and "
+        "assigns every setting read anywhere; it is reached at the start of every run before any food quantity is built; no "
+        "class/module-level container or mutable default is written by run code; per-run objects are constructed per run and "
+        "later rounds deep-copy round-1 dictionaries; no randomness, wall-clock values only reach file names. Equality of "
+        "results across histories and processes is NOT decided.",
+        "Third-party libraries deterministic for identical inputs; no state shared through files. " + TRUST,
+        "effect (write-set) analysis, def-before-use and statement-order analysis over the ast; shared-state inventory",
+        "other",
+    ),
 }
 
 NOT_APPLICABLE = {
